@@ -51,6 +51,26 @@ fn inc_history<const R: usize>(key: &[u8], nonce: &[u8], steps: &[&str]) -> Vec<
                     None
                 })
             }
+            // az.TOTAL.CHUNK : TOTAL zero bytes of associated data, fed CHUNK bytes at a time (no large allocation)
+            "az" => {
+                let total: u64 = u64p(p[1]);
+                let chunk = usz(p[2]);
+                step(&mut out, || {
+                    let z = vec![0u8; chunk];
+                    let mut left = total;
+                    match &mut st {
+                        Inc::Aad(c) => {
+                            while left > 0 {
+                                let n = std::cmp::min(left, chunk as u64) as usize;
+                                c.add_data(&z[..n]);
+                                left -= n as u64;
+                            }
+                        }
+                        _ => panic!("HARNESS: add_data in wrong phase"),
+                    }
+                    None
+                })
+            }
             "E" => step(&mut out, || {
                 st = match std::mem::replace(&mut st, Inc::Done) {
                     Inc::Aad(c) => Inc::Enc(c.to_encryption()),
